@@ -2032,6 +2032,9 @@ def removeslash(
             if self.request.method in ("GET", "HEAD"):
                 uri = self.request.path.rstrip("/")
                 if uri:  # don't try to redirect '/' to ''
+                    # A target starting with "//" would be a protocol-relative
+                    # URL pointing to another host.
+                    uri = "/" + uri.lstrip("/")
                     if self.request.query:
                         uri += "?" + self.request.query
                     self.redirect(uri, permanent=True)
@@ -2059,7 +2062,9 @@ def addslash(
     ) -> Awaitable[None] | None:
         if not self.request.path.endswith("/"):
             if self.request.method in ("GET", "HEAD"):
-                uri = self.request.path + "/"
+                # A target starting with "//" would be a protocol-relative
+                # URL pointing to another host.
+                uri = "/" + (self.request.path + "/").lstrip("/")
                 if self.request.query:
                     uri += "?" + self.request.query
                 self.redirect(uri, permanent=True)
